@@ -33,6 +33,9 @@ def replay_one(item):
     s = Session(_TAB)
     ev = []
     for a in acts:
+        before = None
+        if a['a'] == 'ModifyInPlace' and s.backing is not None:
+            before = s.backing.getvalue()
         res = s.apply(a)
         if res == 'Unsupported':
             ev.append({'a': a, 'res': res, 'o': None})
@@ -44,8 +47,30 @@ def replay_one(item):
                 obs = s.peek()
             except Exception as e:  # pylint: disable=broad-except
                 obs = {'peek_error': type(e).__name__ + ':' + str(e)[:100]}
-        ev.append({'a': a, 'res': res, 'o': obs})
+        e = {'a': a, 'res': res, 'o': obs}
+        ev.append(e)
+        if a['a'] == 'ModifyInPlace':
+            if before is None:
+                e['ipk'] = []
+                continue
+            after = s.backing.getvalue()
+            e['ipk'] = images.inplace_kinds(before, after, [_TAB.name('iso', n) for n in a['p']])
+            # the backing file must itself be a valid image showing the new content
+            (ores, v) = open_view(after, _TAB)
+            b = {'a': {'a': 'BackingView'}, 'res': 'ok', 'wres': 'ok', 'ores': ores, 'o': v,
+                 'base': 'none', 'basekind': 'none'}
+            if v is not None:
+                rep = iso9660.decode(after)
+                v['dec'] = dec_obs(rep, _TAB)
+                if zlib.crc32(str(tid).encode()) % 2 == 0:
+                    b['item'] = images.image_item('%s@%d' % (tid, len(ev)), after, [], report=rep,
+                                                  do_remaster=False, pad=0)
+            ev.append(b)
     extra = {}
+    fq = None
+    if (_OPTS.get('diff') == 'sched' and s.iso is not None and getattr(s.iso, '_initialized', False)
+            and zlib.crc32(str(tid).encode()) % 2 == 0):
+        fq = _force_and_query(s, ev)
     if _OPTS.get('master', True) and s.iso is not None and getattr(s.iso, '_initialized', False):
         (wres, data, wlog) = s.master()
         m = {'a': {'a': 'Master'}, 'res': 'ok', 'wres': wres, 'ores': 'none', 'o': None}
@@ -56,6 +81,8 @@ def replay_one(item):
             if v is not None and _OPTS.get('decode', True):
                 rep = iso9660.decode(data)
                 v['dec'] = dec_obs(rep, _TAB)
+                if fq is not None:
+                    v['dec']['fq'] = fq
                 every = _OPTS.get('image_every', 0)
                 if every and (zlib.crc32(str(tid).encode()) % every) == 0:
                     bits = [x['x'] for x in v['dec']['iso'] if x['b'].startswith('bit:')]
@@ -74,12 +101,15 @@ def replay_one(item):
         ev.append(m)
     t = {'id': tid, 'ev': ev}
     t.update(extra)
+    more = [e.pop('item') for e in ev if 'item' in e]
+    if more:
+        t['items2'] = more
     return t
 
 
 def dec_obs(rep, tab):
     """what the independent ISO9660/Joliet decoder recovers, in model terms (name ids, blob ids)"""
-    out = {'on': True, 'iso': [], 'jol': []}
+    out = {'on': True, 'iso': [], 'jol': [], 'fq': [{'ns': 'none', 'p': [], 'x': 0, 'n': 0}]}
     for ns in ('iso', 'jol'):
         if ns not in rep['trees']:
             continue
@@ -90,7 +120,9 @@ def dec_obs(rep, tab):
             return [tab.unname('iso', bytes(comp).decode('latin-1')) for comp in path]
         for d in rep['trees'][ns]:
             if d['path']:
-                out[ns].append({'p': ids(d['path']), 'k': 'dir', 'b': '', 'x': 0, 'n': 0})
+                out[ns].append({'p': ids(d['path']), 'k': 'dir', 'b': '',
+                                'x': d['extent'] if isinstance(d['extent'], int) else -1,
+                                'n': d['len'] if isinstance(d['len'], int) else -1})
         for f in rep['files'].get(ns, []):
             b = tab.sha.get(f['sha'], '?' + f['sha'][:8])
             if b.startswith('?') and f['size'] == 2048:
@@ -102,7 +134,24 @@ def dec_obs(rep, tab):
     return out
 
 
-NO_DEC = {'on': False, 'iso': [], 'jol': []}
+NO_DEC = {'on': False, 'iso': [], 'jol': [], 'fq': [{'ns': 'none', 'p': [], 'x': 0, 'n': 0}]}
+
+
+def _force_and_query(s, ev):
+    """force_consistency, then ask get_record for the location and length of every ISO9660/Joliet
+    entry (C06: they must be what the image written next contains)"""
+    try:
+        s.iso.force_consistency()
+        state = s.peek()
+        out = []
+        for ns in ('iso', 'jol'):
+            for e in state[ns]:
+                kw = {'iso': 'iso_path', 'jol': 'joliet_path'}[ns]
+                rec = s.iso.get_record(**{kw: s.tab.path(ns, e['p'])})
+                out.append({'ns': ns, 'p': e['p'], 'x': rec.extent_location(), 'n': rec.get_data_length()})
+        return out
+    except Exception as e:  # pylint: disable=broad-except
+        return [{'ns': 'error', 'p': [type(e).__name__], 'x': 0, 'n': 0}]
 SCHED = ('ForceConsistency', 'Query', 'Walk', 'Write')
 
 
@@ -126,9 +175,16 @@ def _base_diff(acts, ev, data):
             return 'none'
     det.reset()
     s = Session(_TAB)
-    for a in keep:
-        if s.apply(a) != 'ok':
-            return 'base_step_failed'
+    if kind == 'refused':
+        for a in keep:
+            if s.apply(a) != 'ok':
+                return 'base_step_failed'
+    else:
+        # the same calls must have the same outcome whatever the schedule
+        want = [e['res'] for (a, e) in zip(acts, ev) if a['a'] not in SCHED]
+        got = [s.apply(a) for a in keep]
+        if got != want[:len(got)]:
+            return 'differs_results'
     (wres, base, _) = s.master()
     if base is None:
         return 'same' if data is None else 'base_wfail:' + wres
@@ -177,7 +233,9 @@ def build_input(tab, traces):
             if e['res'] == 'Unsupported':
                 break
             d = {'a': e['a'], 'res': e['res'], 'o': idx(e['o'])}
-            if e['a']['a'] == 'Master':
+            if 'ipk' in e:
+                d['ipk'] = e['ipk']
+            if e['a']['a'] in ('Master', 'BackingView'):
                 d['wres'] = e['wres']
                 d['ores'] = e['ores']
                 d['base'] = e.get('base', 'none')
